@@ -161,6 +161,13 @@ func (env *Env) Eval(e *Expr) CV {
 			if !ok {
 				panic(cerr("unknown type %q for bound variable", e.BTypes[i]))
 			}
+			if e.BTypes[i] == "iface" {
+				// an interface value is a (type tag, data word) pair
+				tg, dt := tb.BoundVar(n+".tag", BV64), tb.BoundVar(n+".data", BV64)
+				bound = append(bound, tg, dt)
+				ce.vars[n] = CV{V: IfaceV{Tag: tg, Data: dt}, T: t}
+				continue
+			}
 			w, _, _ := basicInfo(t)
 			bv := tb.BoundVar(n, BV(w))
 			bound = append(bound, bv)
@@ -1203,7 +1210,7 @@ func (e *Engine) parseTypeName(from *types.Package, name string) types.Type {
 	return t
 }
 
-var eventKinds = map[string]int{"V": 1, "B": 2, "W": 3, "CW": 4, "RV": 5, "RB": 6, "RN": 7, "CR": 8, "CS": 9, "OUT": 10, "TOK": 11, "CB": 12, "NEW": 13, "OMIT": 14, "WB": 15, "FL": 16, "CLR": 17, "HDR": 18, "IN": 19, "ENC": 20, "MAPSET": 21}
+var eventKinds = map[string]int{"V": 1, "B": 2, "W": 3, "CW": 4, "RV": 5, "RB": 6, "RN": 7, "CR": 8, "CS": 9, "OUT": 10, "TOK": 11, "CB": 12, "NEW": 13, "OMIT": 14, "WB": 15, "FL": 16, "CLR": 17, "HDR": 18, "IN": 19, "ENC": 20, "MAPSET": 21, "REG": 22}
 
 // useAxiom instantiates an axiom schema at the given argument expressions.
 func (env *Env) useAxiom(e *Expr) *Term {
